@@ -56,3 +56,7 @@ Definition lr_Q (linear : bool) (lr0 num_timesteps total : Q) : Q :=
   if linear then lr0 * progress_Q num_timesteps total else lr0.
 (* clipping applied to one gradient entry *)
 Definition clipped_Q (max_norm total g : Q) : Q := clip_coef_Q max_norm total * g.
+(* BaseAlgorithm._update_learning_rate + utils.update_learning_rate: every param group of every
+   optimizer gets schedule(progress_remaining) *)
+Definition apply_lr (sched : Q -> Q) (progress : Q) (optimizers : list (list Q)) : list (list Q) :=
+  map (map (fun _ => sched progress)) optimizers.
